@@ -182,6 +182,104 @@ def run_multitask(case, ctx: Ctx):
               f"task={case['lik']['task']}", f"iter={G.is_iterative(s)}", f"fpv={int(s['fpv'])}", f"tb={case['tb']}", MT.cell(case))
 
 
+# ---------------------------------------------------------------------------------------------------
+# other multi-output exact models: derivative GPs (RBFKernelGrad / Matern52KernelGrad / PolynomialKernelGrad with ConstantMeanGrad or
+# LinearMeanGrad) and LCM kernels - num_outputs_per_input > 1 through ExactGP.__call__ and the default strategy
+# ---------------------------------------------------------------------------------------------------
+@st.composite
+def multioutput_case(draw):
+    kind = draw(st.sampled_from(["RBFGrad", "Matern52Grad", "PolyGrad", "LCM"]))
+    d = draw(st.integers(1, 2))
+    n, ns = draw(st.integers(1, 4)), draw(st.integers(1, 3))
+    t = d + 1 if kind != "LCM" else draw(st.integers(2, 3))
+    case = {"kind": kind, "d": d, "n": n, "ns": ns, "t": t, "tb": draw(st.sampled_from([[], [], [2]])),
+            "ls": draw(kern.arr([1, d], kern.pos(0.5, 3.0))), "ard": draw(st.booleans()), "offset": draw(kern.pos(0.2, 2.0)),
+            "mean": draw(st.sampled_from(["ConstantGrad", "LinearGrad", "Zero"])) if kind != "LCM" else "Multitask",
+            "const": draw(kern.REAL), "noise": [draw(kern.pos(0.05, 1.0))], "task_noises": draw(kern.arr([t], kern.pos(0.05, 1.0))),
+            "X": draw(kern.points(n, d)), "y": draw(kern.arr([n, t], kern.REAL))}
+    case["Xs"] = draw(kern.points(ns, d, case["tb"]))
+    if kind == "LCM":
+        case["members"] = [{"kernel": draw(kern.base_kernel(d, [], names=["RBF", "Matern2.5", "RQ", "Periodic"], allow_ad=False)),
+                            "covar_factor": draw(kern.arr([t, 1], kern.REAL)), "var": draw(kern.arr([t], kern.pos(0.05, 2.0)))} for _ in range(draw(st.integers(1, 2)))]
+    case["settings"] = draw(G.pred_settings((n + ns) * t))
+    case["settings"]["max_chol"] = 800
+    case["torch_seed"] = draw(st.integers(0, 2**31 - 1))
+    return case
+
+
+def build_multioutput(case):
+    from gpytorch import kernels as K
+    from gpytorch import means as M
+
+    t, d = case["t"], case["d"]
+    lik = gpytorch.likelihoods.MultitaskGaussianLikelihood(num_tasks=t)
+    lik.noise = T(case["noise"])
+    lik.task_noises = T(case["task_noises"])
+    kind = case["kind"]
+    if kind == "LCM":
+        covar = K.LCMKernel([kern.build_kernel(m["kernel"]) for m in case["members"]], num_tasks=t, rank=1)
+        for mod, m in zip(covar.covar_module_list, case["members"]):
+            mod.task_covar_module.initialize(covar_factor=T(m["covar_factor"]))
+            mod.task_covar_module.var = T(m["var"])
+        mean = M.MultitaskMean(M.ConstantMean(), num_tasks=t)
+        for mm in mean.base_means:
+            mm.constant = T(case["const"])
+    else:
+        if kind == "PolyGrad":
+            covar = K.PolynomialKernelGrad(power=2)
+            covar.offset = T([case["offset"]])
+        else:
+            cls = K.RBFKernelGrad if kind == "RBFGrad" else K.Matern52KernelGrad
+            covar = cls(ard_num_dims=d if case["ard"] else None)
+            covar.lengthscale = T(case["ls"]) if case["ard"] else T(case["ls"])[..., :1]
+        covar = K.ScaleKernel(covar)
+        if case["mean"] == "ConstantGrad":
+            mean = M.ConstantMeanGrad()
+            mean.initialize(constant=T([case["const"]]))
+        elif case["mean"] == "LinearGrad":
+            mean = M.LinearMeanGrad(d)
+            mean.initialize(weights=torch.full((d, 1), case["const"]), bias=T([0.25]))
+        else:
+            mean = M.MultitaskMean(M.ZeroMean(), num_tasks=t)
+    model = G.RecipeMultitaskGP(T(case["X"]), T(case["y"]), lik, mean, covar)
+    return model, lik
+
+
+def run_multioutput(case, ctx: Ctx):
+    s = case["settings"]
+    t, n, ns = case["t"], case["n"], case["ns"]
+    ctx.cls = f"{case['kind']}|{case['mean']}|tb{case['tb']}|fpv{int(s['fpv'])}"
+    X, y, Xs = T(case["X"]), T(case["y"]), T(case["Xs"])
+    with ctx.observing("build"):
+        model, lik = build_multioutput(case)
+        model.eval()
+        lik.eval()
+    with ctx.observing("own_prior"):
+        # derivative kernels document x1 and x2 with a common batch shape (ExactGP expands the training inputs itself)
+        Kxx, Kxs, Kss, mx, ms = G.own_prior_blocks(model, X.expand(*case["tb"], n, case["d"]), Xs)
+        mx, ms = mx.reshape(*mx.shape[:-2], -1), ms.reshape(*ms.shape[:-2], -1)
+    bshape = torch.Size(case["tb"])
+    D = torch.diag(T(case["task_noises"])) + case["noise"][0] * torch.eye(t)
+    mean_w, cov_w, kappa, A = G.dense_conditional(Kxx, Kxs, Kss, mx, ms, None, y.reshape(-1), smat=MT.kron(torch.eye(n), D))
+    rtol = atol = max(G.chol_tol(kappa, case["kind"] != "Matern52Grad"), 1e-9)
+    scale = max(1.0, float(cov_w.abs().max()), float(mean_w.abs().max()))
+    with ctx.observing("predict"):
+        torch.manual_seed(case["torch_seed"])
+        with G.settings_ctx(s), torch.no_grad():
+            out = model(Xs)
+            gm, gc = out.mean, out.covariance_matrix
+            pred = lik(out)
+            pcv = pred.covariance_matrix
+    ctx.close("mean", gm, mean_w.reshape(*bshape, ns, t), rtol=rtol, atol=atol, scale=scale)
+    if s["skip_var"]:
+        ctx.close("skipped.cov_is_zero", gc, torch.zeros(*bshape, ns * t, ns * t), rtol=0, atol=0)
+    else:
+        ctx.close("cov", gc, cov_w.expand(*bshape, ns * t, ns * t), rtol=rtol, atol=atol, scale=scale)
+        ctx.close("likelihood.noise", pcv - gc, MT.kron(torch.eye(ns), D).expand(*bshape, ns * t, ns * t), rtol=1e-9, atol=1e-9, scale=scale)
+    ctx.set_nontrivial(n >= 2)
+    ctx.label(f"multioutput={case['kind']}", f"mo.mean={case['mean']}", f"mo.tb={case['tb']}", f"mo.fpv={int(s['fpv'])}")
+
+
 RULE = ("exact-GP recipe (mean in {Zero, Constant, Linear}; kernel expression tree of depth <= 2 over 18 kernel variants with ARD / "
         "active_dims / batch; likelihood in {Gaussian, FixedNoise, FixedNoise + learned}) x data (n <= 6, n* <= 4, d <= 3; model / train / "
         "test batch shapes from the broadcastable patterns) x one point of the settings product (lazy, eager threshold at/below/above, "
@@ -192,6 +290,7 @@ RULE = ("exact-GP recipe (mean in {Zero, Constant, Linear}; kernel expression tr
 SUBCHECKS = [
     Subcheck("exact.posterior", run_posterior, strategy=posterior_case, quick=1600, thorough=50000, min_shard=50),
     Subcheck("exact.multitask", run_multitask, strategy=multitask_posterior_case, quick=600, thorough=20000, min_shard=40),
+    Subcheck("exact.multioutput", run_multioutput, strategy=multioutput_case, quick=300, thorough=15000, min_shard=40),
 ]
 
 SPEC = PropertySpec(
